@@ -499,7 +499,7 @@ func ruleC01List(p *Prog, r *Result) {
 				}
 			}
 			if m == 1 {
-				if kept != nil && !(kept.IsNil() || (kept.Op == "lit" && len(kept.Args) == 0)) {
+				if kept != nil && !(kept.IsNil() || kept.IsEmptyList()) {
 					return false, "a matching entry is kept: " + kept.String()
 				}
 			} else {
@@ -837,6 +837,47 @@ func ruleC01Match(p *Prog, r *Result) {
 		}
 		return false, "after every pattern entry found a match the result must be true"
 	})
+	// only-if directions: no verdict without the evidence for it (a shortcut such as "a longer pattern cannot
+	// match" answers false although every pattern entry has a matching value entry)
+	pr.all("list pattern: no match only when some pattern entry has no matching value entry", selectPaths(listPat, func(pa *Path) bool {
+		return guardPol(pa, "kind", objP, "list") == 1 && retBool(pa, "false")
+	}), "false is returned only after the search through the value for one pattern entry is exhausted", func(pa *Path) (bool, string) {
+		if guardPol(pa, "itermore", mOp("range", objP), nil) == -1 && guardPol(pa, "itermore", mOp("range", patP), nil) == 1 {
+			return true, ""
+		}
+		return false, "a list pattern is rejected without any pattern entry having been searched for in vain"
+	})
+	pr.all("list pattern: match only when every pattern entry was found", selectPaths(listPat, func(pa *Path) bool {
+		return guardPol(pa, "kind", objP, "list") == 1 && retBool(pa, "true")
+	}), "true is returned only after the last pattern entry", func(pa *Path) (bool, string) {
+		if guardPol(pa, "itermore", mOp("range", patP), nil) == -1 {
+			return true, ""
+		}
+		return false, "a list pattern is accepted before all of its entries were looked for"
+	})
+	pr.all("map pattern: no match only when an entry fails (or the value is an unevaluated reference)", selectPaths(plainMap, func(pa *Path) bool {
+		return guardPol(pa, "kind", objP, "map") == 1 && retBool(pa, "false")
+	}), "false is returned only after match(obj[k], v) failed for a pattern entry, or by the placeholder rule", func(pa *Path) (bool, string) {
+		if guardPol(pa, "truth", recEntry, nil) == -1 {
+			return true, ""
+		}
+		if guardPol(pa, "len", objP, "==1") == 1 {
+			for _, d := range []string{"$merge", "$replace", "$encode"} {
+				if guardPol(pa, "streq", mKeyOf(objP), q(d)) == 1 {
+					return true, ""
+				}
+			}
+		}
+		return false, "a map pattern is rejected although no pattern entry failed"
+	})
+	pr.all("map pattern: match only when every pattern entry was compared", selectPaths(plainMap, func(pa *Path) bool {
+		return guardPol(pa, "kind", objP, "map") == 1 && retBool(pa, "true")
+	}), "true is returned only after the last pattern entry", func(pa *Path) (bool, string) {
+		if guardPol(pa, "itermore", mOp("range", patClone), nil) == -1 {
+			return true, ""
+		}
+		return false, "a map pattern is accepted before all of its entries were compared"
+	})
 	_ = obj
 }
 
@@ -859,5 +900,20 @@ func ruleDeepClone(p *Prog, r *Result) {
 			return false, "what is decoded is not an encoding of the argument"
 		}
 		return true, ""
+	})
+}
+
+// ruleC07Required (C07.required): a "$required" entry in a parent list is satisfied — removed — only
+// when the child actually supplies a list. Every path of merge on which the parent's entries are tested
+// against "$required" is a path where the child is a list.
+func ruleC07Required(p *Prog, r *Result) {
+	pr := newPSRule(p, r, "C07.required", "bkl.merge", mergeOpts)
+	fromDst := func(t *T) bool { return pr.elemOfParam(t, "dst") }
+	strip := selectPaths(pr.paths, func(pa *Path) bool { return guardPol(pa, "streq", TM(fromDst), q("$required")) != 0 })
+	pr.all(`the parent's "$required" list marker is removed only by a child list`, strip, "every path that looks for the marker in the parent has kind(child) = list", func(pa *Path) (bool, string) {
+		if guardPol(pa, "kind", mParam("src"), "list") == 1 {
+			return true, ""
+		}
+		return false, `the parent list's "$required" marker is stripped although the child is not a list (null or absent child: nothing overrides the requirement, yet evaluation succeeds)`
 	})
 }
